@@ -103,16 +103,13 @@ def _diff(a, b, names: dict, rnames: dict, out: list, in_msg=False) -> bool:
             return True
         return False
     if isinstance(a, ast.Name):
-        if a.id != b.id:
-            if names.get(a.id, b.id) != b.id or rnames.get(b.id, a.id) != a.id:
-                out.append(("name", a.id, b.id))
-            names[a.id] = b.id
-            rnames[b.id] = a.id
-        else:
-            if names.get(a.id, b.id) != b.id or rnames.get(b.id, a.id) != a.id:
-                out.append(("name", a.id, b.id))
-            names.setdefault(a.id, b.id)
-            rnames.setdefault(b.id, a.id)
+        # the renaming is a *function* from the repository's names to the rule's role names: one name of
+        # the repository cannot play two roles of the rule, but two names may share a role (a refactoring
+        # that splits a re-bound variable into two)
+        if names.get(a.id, b.id) != b.id:
+            out.append(("name", a.id, b.id))
+        names.setdefault(a.id, b.id)
+        rnames.setdefault(b.id, a.id)
         return True
     if isinstance(a, ast.Constant):
         if a.value != b.value or type(a.value) is not type(b.value):
@@ -161,7 +158,7 @@ def _diff(a, b, names: dict, rnames: dict, out: list, in_msg=False) -> bool:
                 for k, v in n2.items():
                     if k in ta or v in tb:
                         continue
-                    if names.get(k, v) != v or rnames.get(v, k) != k:
+                    if names.get(k, v) != v:
                         out.append(("name", k, v))
                     names.setdefault(k, v)
                     rnames.setdefault(v, k)
